@@ -429,8 +429,63 @@ func max(a, b int) int {
 	return b
 }
 
+// ---- UnaryExpr.JSON model (the AST method that dereferenced a nil literal) -------------------------
+var unaryJSONModel = &Model{
+	Name: "unaryjson",
+	Gen: func(r *Rng, tier string, emit func(Case)) {
+		ops := []js.TokenType{js.NegToken, js.NotToken, js.PosToken, js.BitNotToken, js.TypeofToken}
+		tts := []js.TokenType{js.DecimalToken, js.IntegerToken, js.StringToken, js.BinaryToken, js.IdentifierToken}
+		datas := [][]byte{{}, []byte("0"), []byte("1"), []byte("10"), []byte("2"), []byte("1.5"), []byte("'a'"), []byte("01")}
+		for _, op := range ops {
+			for isLit := int64(0); isLit < 2; isLit++ {
+				for _, tt := range tts {
+					for _, d := range datas {
+						args := []int64{int64(js.NegToken), int64(js.NotToken), int64(js.DecimalToken), int64(js.IntegerToken), int64(op), isLit, int64(tt)}
+						args = append(args, bytesToArgs(d)...)
+						emit(Case{Fn: "unaryjson", Args: args, Note: fmt.Sprintf("UnaryExpr{%v, lit=%d %v %q}.JSON", op, isLit, tt, d)})
+					}
+				}
+			}
+		}
+	},
+	Impl: func(c Case) []int64 {
+		a := c.Args
+		dv, _ := takeList(a[7:])
+		var x js.IExpr
+		if a[5] == 1 {
+			x = &js.LiteralExpr{TokenType: js.TokenType(a[6]), Data: toBytes(dv)}
+		} else {
+			x = &js.Var{Data: []byte("a")}
+		}
+		n := js.UnaryExpr{Op: js.TokenType(a[4]), X: x}
+		var w bytes.Buffer
+		var err error
+		if p := catch(func() { err = n.JSON(&w) }); p != nil {
+			return []int64{-1}
+		}
+		if err != nil {
+			return []int64{4}
+		}
+		switch out := w.String(); {
+		case out == "true":
+			return []int64{2}
+		case out == "false":
+			return []int64{3}
+		case strings.HasPrefix(out, "-"):
+			res := []int64{1}
+			for _, ch := range []byte(out[1:]) {
+				res = append(res, int64(ch))
+			}
+			return res
+		}
+		return []int64{-5}
+	},
+	Class: func(c Case, out []int64) string { return fmt.Sprintf("result%d", out[0]) },
+}
+
 func init() {
 	props["C01"] = &PropSpec{
+		Models: []*Model{unaryJSONModel},
 		Oracles: []*Oracle{{Name: "c01-no-crash-hang-overread", Run: c01Oracle}},
 	}
 }
